@@ -37,6 +37,7 @@ type vFld struct {
 	isMap    bool
 	msg      *vMsg // message type (for maps: the synthetic entry message)
 	key, val *vFld // map entry fields
+	shallow  bool  // the referenced message is compared one level deep only (recursive references)
 }
 
 type vMeth struct {
@@ -267,8 +268,11 @@ func vSame(td *TypeDescriptor, m *vMsg, depth int, label string) {
 				continue
 			}
 			vrt.Assert(t.Key().Type() == Type(f.key.typ), label+".map.key-kind")
+			vrt.Assert(fd.MapKey() == t.Key() && fd.MapValue() == t.Elem(), label+".map.field-accessors")
 			if f.val.typ == descriptorpb.FieldDescriptorProto_TYPE_MESSAGE {
-				if depth > 0 {
+				if f.shallow {
+					vrt.Assert(t.Elem().Type() == MESSAGE && t.Elem().Message() != nil && t.Elem().Message().ByNumber(1) != nil, label+".map.recursive-value")
+				} else if depth > 0 {
 					vSame(t.Elem(), f.val.msg, depth-1, label+".map.value")
 				}
 			} else {
@@ -282,7 +286,10 @@ func vSame(td *TypeDescriptor, m *vMsg, depth int, label string) {
 			packable := f.typ != descriptorpb.FieldDescriptorProto_TYPE_MESSAGE && f.typ != descriptorpb.FieldDescriptorProto_TYPE_STRING && f.typ != descriptorpb.FieldDescriptorProto_TYPE_BYTES
 			vrt.Assert(t.IsPacked() == packable, label+".list.packedness")
 			if f.typ == descriptorpb.FieldDescriptorProto_TYPE_MESSAGE {
-				if depth > 0 {
+				vrt.Assert(fd.Message() != nil && fd.Message() == t.Elem().Message(), label+".list.field-message")
+				if f.shallow {
+					vrt.Assert(t.Elem().Type() == MESSAGE && t.Elem().Message().ByNumber(1) != nil, label+".list.recursive-element")
+				} else if depth > 0 {
 					vSame(t.Elem(), f.msg, depth-1, label+".list.element")
 				}
 			} else {
@@ -290,6 +297,7 @@ func vSame(td *TypeDescriptor, m *vMsg, depth int, label string) {
 			}
 		case f.typ == descriptorpb.FieldDescriptorProto_TYPE_MESSAGE:
 			vrt.Assert(!t.IsList() && !t.IsMap(), label+".singular.structure")
+			vrt.Assert(fd.Message() != nil && fd.Message() == t.Message(), label+".singular.field-message")
 			if depth > 0 {
 				vSame(t, f.msg, depth-1, label+".message-field")
 			}
@@ -349,6 +357,8 @@ func VerifC15_Parse() {
 	Req.add(&vFld{num: 1, name: "a", typ: descriptorpb.FieldDescriptorProto_TYPE_MESSAGE, msg: A})
 	Req.add(&vFld{num: 2, name: "b", typ: descriptorpb.FieldDescriptorProto_TYPE_MESSAGE, msg: B})
 	Req.add(&vFld{num: 3, name: "self", typ: descriptorpb.FieldDescriptorProto_TYPE_MESSAGE, msg: Req})
+	Req.add(&vFld{num: 9, name: "selfs", typ: descriptorpb.FieldDescriptorProto_TYPE_MESSAGE, msg: Req, repeated: true, shallow: true})
+	Req.addMap(10, "selfm", descriptorpb.FieldDescriptorProto_TYPE_STRING, descriptorpb.FieldDescriptorProto_TYPE_MESSAGE, Req).shallow = true
 	Req.addMap(4, "mp", kt, descriptorpb.FieldDescriptorProto_TYPE_MESSAGE, BM)
 	Req.add(&vFld{num: 5, name: "r", typ: descriptorpb.FieldDescriptorProto_TYPE_INT32, repeated: true})
 	Req.addMap(6, "ms", descriptorpb.FieldDescriptorProto_TYPE_STRING, descriptorpb.FieldDescriptorProto_TYPE_SINT64, nil)
